@@ -1,5 +1,83 @@
 import Cellml.Basic.Sexp
-/-! Channel C14 of the model driver (stub: not built yet). -/
+import Cellml.C14.Pipeline
+
+/-! Channel C14 of the model driver.
+
+    * `(C14 "text")` / `(C14 plain "text")`           → `(bits 0x…)` | `(err)`      bits of the double nearest to the text
+    * `(C14 enot "mantissa" "exponent")`              → `(bits 0x…)` | `(err)`      e-notation: one parse of m ++ "e" ++ %d
+    * `(C14 lit (plain "t") | (enot "m" "e") | (init "t")  (emitted "t1" …))`
+          → `(ok (source 0x…) (quantity 0x…) (getvalue 0x…) (stripped 0x…) (emitted 0x…|err …))` | `(err)`
+    * `(C14 prec dps)`                                → `(prec n)`                  sympy's dps_to_prec
+    * `(C14 value 0x…)`                               → `(value p/q)`               exact rational of a finite pattern
+    * `(C14 twostep "mantissa" exponent)`             → `(bits 0x…)`                float(m) * 10**e (the contrast)
+    * `(C14 evalf fp 0x…)`                            → `(bits 0x…)`                the evalf stage at another precision -/
 namespace C14
-def handle (_args : List Sexp) : Sexp := .atom "not-implemented"
+open Sexp
+
+def bitsS (b : Nat) : Sexp := .atom (hexOf b)
+
+def optBits : Option Nat → Sexp
+  | some b => .list [.atom "bits", bitsS b]
+  | none => .list [.atom "err"]
+
+def hexVal (c : Char) : Option Nat :=
+  if c.isDigit then some (c.toNat - 48)
+  else if 'a' ≤ c ∧ c ≤ 'f' then some (c.toNat - 87)
+  else if 'A' ≤ c ∧ c ≤ 'F' then some (c.toNat - 55)
+  else none
+
+def parseHex (s : String) : Option Nat :=
+  match s.toList with
+  | '0' :: 'x' :: ds =>
+      if ds.isEmpty then none
+      else ds.foldl (fun acc c => match acc, hexVal c with
+                                   | some a, some v => some (16 * a + v)
+                                   | _, _ => none) (some 0)
+  | _ => none
+
+def source? : Sexp → Option Source
+  | .list [.atom "plain", .str t] => some (.plain t.toList)
+  | .list [.atom "enot", .str m, .str e] => some (.enotation m.toList e.toList)
+  | .list [.atom "init", .str t] => some (.initial t.toList)
+  | _ => none
+
+def emittedBits : Sexp → Sexp
+  | .str t => match decToBits t with
+              | some b => bitsS b
+              | none => .atom "err"
+  | _ => .atom "err"
+
+def handle (args : List Sexp) : Sexp :=
+  match args with
+  | [.str t] => optBits (cnPlain t.toList)
+  | [.atom "plain", .str t] => optBits (cnPlain t.toList)
+  | [.atom "enot", .str m, .str e] => optBits (cnENotation m.toList e.toList)
+  | [.atom "lit", src, .list (.atom "emitted" :: ts)] =>
+      match source? src with
+      | none => .atom "bad-request"
+      | some s =>
+        match sourceBits s, pipeline s with
+        | some b, some o =>
+            .list [.atom "ok", .list [.atom "source", bitsS b], .list [.atom "quantity", bitsS o.quantity],
+                   .list [.atom "getvalue", bitsS o.getValue], .list [.atom "stripped", bitsS o.stripped],
+                   .list (.atom "emitted" :: ts.map emittedBits)]
+        | _, _ => .list [.atom "err"]
+  | [.atom "prec", d] =>
+      match nat? d with
+      | some n => .list [.atom "prec", ofNat (dpsToPrec n)]
+      | none => .atom "bad-request"
+  | [.atom "value", h] =>
+      match (atomOf? h).bind parseHex with
+      | some b => if isFiniteBits b then .list [.atom "value", ofRat (bitsToRat b)] else .list [.atom "nonfinite"]
+      | none => .atom "bad-request"
+  | [.atom "twostep", .str m, e] =>
+      match nat? e with
+      | some n => optBits (twoStep m.toList n)
+      | none => .atom "bad-request"
+  | [.atom "evalf", fp, h] =>
+      match nat? fp, (atomOf? h).bind parseHex with
+      | some p, some b => .list [.atom "bits", bitsS (evalfStage p b)]
+      | _, _ => .atom "bad-request"
+  | _ => .atom "bad-request"
+
 end C14
